@@ -10,9 +10,10 @@
  *   caps <conn> <handoff> <rtrack>      FIRST line: max_entries of conn_state_map / routing_handoff_map /
  *                                       redirect_track for this process                         -> ok
  *   reset                               clear every map, PARAM := 0, clock := 1e9              -> ok
- *   param <ctlpid> <sockmark> <dae0if> <usepeer> <peermac 12hex>                               -> ok
+ *   param <ctlpid> <sockmark> <dae0if> <usepeer> <peermac 12hex> [<netns>]                     -> ok
  *   clock <ns>                          bpf_ktime_get_ns() := ns                               -> ok
  *   rules <n> {<48hex>}*n | meta <n> | dom <32hex> <256hex> | domdel <32hex>   (as the C02 driver) -> ok
+ *   lpm <slot> <nkeys> {<prefixlen>:<32hex>}*   lpm_array_map[slot] = new LPM trie with these keys  -> ok
  *   alive <key> <val>                   outbound_connectivity_map[key] = val                   -> ok
  *   cookie <cookie> <pid> <pname 32hex> cookie_pid_map[cookie] = {now, pid, pname}              -> ok
  *   cookiedel <cookie>                                                                         -> ok | err=<rc>
@@ -20,7 +21,8 @@
  *   frame <hook> <l2> <proto> <lin> <pull> <ingressif> <ifindex> <mark> <cookie> <sk> <hex>
  *         hook = li | le | wi | we ; l2 = 1 (link_h_len 14) | 0 ; proto = ethertype of skb->protocol
  *         (decimal); lin = linear bytes (data_end - data) ; pull = 1: bpf_skb_pull_data succeeds ;
- *         sk = - | <mark>:<state>  what bpf_skc_lookup_tcp / bpf_sk_lookup_udp return
+ *         sk = - | <proto>:<mark>:<state>:<netns>:<tuple hex>  the one relevant socket of the host: the lookup
+ *              helpers return it only when asked for that protocol, struct bpf_sock_tuple image and netns
  *       -> v=<ret> mark=<skb mark> cb=<cb0>:<cb1> redir=<-|ifindex:flags:peer> pkt=<=|hex>
  *          conn=[..] ho=[..] rt=[..] ck=[..] ev=[..] ovf=<udp>:<tcp>
  *          ([..] = entries of that map the program added/changed (+key:value) or removed (-key),
@@ -55,6 +57,12 @@ static int pull_ok;
 static uint64_t cur_cookie;
 static int sk_present;
 static struct bpf_sock sk_obj;
+/* the one socket of the host's table relevant for this frame: found only by the right helper, under
+ * the right struct bpf_sock_tuple image and netns */
+static int sk_proto;               /* IPPROTO_TCP / IPPROTO_UDP */
+static uint64_t sk_netns;
+static unsigned char sk_tuple[40];
+static uint32_t sk_tuple_len;
 static int redir_set;
 static uint32_t redir_ifindex;
 static uint64_t redir_flags;
@@ -143,22 +151,25 @@ __u64 bpf_get_socket_cookie(void *ctx)
 	return cur_cookie;
 }
 
-struct bpf_sock *bpf_skc_lookup_tcp(void *ctx, struct bpf_sock_tuple *t, __u32 sz, __u64 netns, __u64 flags)
+static struct bpf_sock *sock_table_lookup(int proto, struct bpf_sock_tuple *t, __u32 sz, __u64 netns, __u64 flags)
 {
-	(void)ctx; (void)t; (void)sz; (void)netns; (void)flags;
-	if (!sk_present)
+	if (!sk_present || flags != 0 || proto != sk_proto || netns != sk_netns || sz != sk_tuple_len ||
+	    memcmp(t, sk_tuple, sz) != 0)
 		return NULL;
 	sk_refs++;
 	return &sk_obj;
 }
 
+struct bpf_sock *bpf_skc_lookup_tcp(void *ctx, struct bpf_sock_tuple *t, __u32 sz, __u64 netns, __u64 flags)
+{
+	(void)ctx;
+	return sock_table_lookup(IPPROTO_TCP, t, sz, netns, flags);
+}
+
 struct bpf_sock *bpf_sk_lookup_udp(void *ctx, struct bpf_sock_tuple *t, __u32 sz, __u64 netns, __u64 flags)
 {
-	(void)ctx; (void)t; (void)sz; (void)netns; (void)flags;
-	if (!sk_present)
-		return NULL;
-	sk_refs++;
-	return &sk_obj;
+	(void)ctx;
+	return sock_table_lookup(IPPROTO_UDP, t, sz, netns, flags);
 }
 
 struct bpf_sock *bpf_sk_fullsock(struct bpf_sock *sk)
@@ -454,7 +465,7 @@ static const struct cdef consts_tbl[] = {
 	{ "sizeof_redirect_tuple", sizeof(struct redirect_tuple) },
 	{ "sizeof_redirect_entry", sizeof(struct redirect_entry) },
 	{ "sizeof_pid_pname", sizeof(struct pid_pname) },
-	{ "connectivity_max_entries", 1536 },
+	{ "connectivity_max_entries", (long long)SHIM_ARRLEN(outbound_connectivity_map.max_entries) },
 };
 
 /* the fields of the parsed-header context that any later code reads */
@@ -580,7 +591,7 @@ int main(void)
 		if (!strcmp(toks[0], "reset") && n == 1) {
 			reset_all();
 			puts("ok");
-		} else if (!strcmp(toks[0], "param") && n == 6) {
+		} else if (!strcmp(toks[0], "param") && (n == 6 || n == 7)) {
 			struct dae_param *p = param_rw();
 			unsigned char mac[6];
 
@@ -593,6 +604,7 @@ int main(void)
 			p->dae0_ifindex = (uint32_t)strtoul(toks[3], NULL, 10);
 			p->use_redirect_peer = (uint8_t)strtoul(toks[4], NULL, 10);
 			memcpy(p->dae0peer_mac, mac, 6);
+			p->dae_netns_id = n == 7 ? (uint32_t)strtoul(toks[6], NULL, 10) : 0;
 			puts("ok");
 		} else if (!strcmp(toks[0], "clock") && n == 2) {
 			shim_ktime_ns = strtoull(toks[1], NULL, 10);
@@ -610,6 +622,38 @@ int main(void)
 					bad = 1;
 			}
 			puts(bad ? "bad-op" : "ok");
+		} else if (!strcmp(toks[0], "lpm") && n >= 3) {
+			/* lpm <slot> <nkeys> {<prefixlen>:<32 hex data>}*  : lpm_array_map[slot] = new LPM trie */
+			uint32_t slot = (uint32_t)strtoul(toks[1], NULL, 10);
+			int nk = atoi(toks[2]), i, bad = (n != 3 + nk);
+			struct shim_map *inner = shim_map_create("lpm", BPF_MAP_TYPE_LPM_TRIE, sizeof(struct lpm_key),
+								 sizeof(__u32), MAX_LPM_SIZE);
+
+			for (i = 0; !bad && i < nk; i++) {
+				struct lpm_key key;
+				__u32 one = 1;
+				char *colon = strchr(toks[3 + i], ':');
+
+				if (!colon) {
+					bad = 1;
+					break;
+				}
+				*colon = 0;
+				key.prefixlen = (uint32_t)strtoul(toks[3 + i], NULL, 10);
+				if (unhex(colon + 1, (unsigned char *)key.data, 16) || shim_map_update(inner, &key, &one, BPF_ANY))
+					bad = 1;
+			}
+			if (bad) {
+				shim_map_free(inner);
+				puts("bad-op");
+			} else {
+				long rc = shim_map_set_inner(m_lpm_array, slot, inner);
+
+				if (rc)
+					printf("err=%ld\n", rc);
+				else
+					puts("ok");
+			}
 		} else if (!strcmp(toks[0], "meta") && n == 2) {
 			__u32 v = (__u32)strtoul(toks[1], NULL, 10), k = 0;
 
@@ -705,16 +749,29 @@ int main(void)
 			sk_present = 0;
 			memset(&sk_obj, 0, sizeof(sk_obj));
 			if (strcmp(toks[10], "-")) {
-				char *colon = strchr(toks[10], ':');
+				/* <proto>:<mark>:<state>:<netns>:<tuple hex> */
+				char *f[5];
+				int nf = 0;
+				char *q = toks[10];
 
-				if (!colon) {
+				while (nf < 5) {
+					f[nf++] = q;
+					q = strchr(q, ':');
+					if (!q)
+						break;
+					*q++ = 0;
+				}
+				if (nf != 5 || strlen(f[4]) % 2 || strlen(f[4]) / 2 > sizeof(sk_tuple) ||
+				    unhex(f[4], sk_tuple, strlen(f[4]) / 2)) {
 					puts("bad-op");
 					continue;
 				}
-				*colon = 0;
 				sk_present = 1;
-				sk_obj.mark = (uint32_t)strtoul(toks[10], NULL, 10);
-				sk_obj.state = (uint32_t)strtoul(colon + 1, NULL, 10);
+				sk_proto = atoi(f[0]);
+				sk_obj.mark = (uint32_t)strtoul(f[1], NULL, 10);
+				sk_obj.state = (uint32_t)strtoul(f[2], NULL, 10);
+				sk_netns = strtoull(f[3], NULL, 10);
+				sk_tuple_len = (uint32_t)(strlen(f[4]) / 2);
 			}
 			redir_set = 0;
 			nevs = 0;
